@@ -192,11 +192,12 @@ def classify_diffs(dec, idxs, exp, toks, by_tok, infos, flat_idx):
     for i in sorted(set(got) | set(want)):
         k = toks[i]
         where = "%d:%d %r" % (k["line"], k["col"], k["text"])
+        part = "b" if k["cls"] == "ident" else "a"
         if i not in got:
             cid = "C15-trailing-comment" if (k["cls"] == "comment" and i > last_real) else None
-            out.append((cid, "%s (%s) is missing from the stream" % (where, want[i][0])))
+            out.append((cid, "%s (%s) is missing from the stream" % (where, want[i][0]), part))
         elif i not in want:
-            out.append((None, "%s is reported as %s but the property does not classify it" % (where, got[i][0])))
+            out.append((None, "%s is reported as %s but the property does not classify it" % (where, got[i][0]), "extra"))
         elif got[i] != want[i]:
             cid = None
             o = by_tok.get(i)
@@ -204,7 +205,7 @@ def classify_diffs(dec, idxs, exp, toks, by_tok, infos, flat_idx):
                     and o["name"] in infos[o["decl"]]["locals"] and want[i][0] == "type" \
                     and got[i][0] in ("parameter", "variable"):
                 cid = "C15-type-use-shadowed-by-local"
-            out.append((cid, "%s is %s %s, expected %s %s" % (where, got[i][0], got[i][1], want[i][0], want[i][1])))
+            out.append((cid, "%s is %s %s, expected %s %s" % (where, got[i][0], got[i][1], want[i][0], want[i][1]), part))
     return out
 
 
@@ -262,6 +263,7 @@ def run(ctx):
             "with_comments": 0, "empty_stream": 0, "tokens_reported": 0, "declaration_bits": 0, "mute": 0,
             "model_wf_false": 0}
     types_seen = {}
+    spec_hist, spec_disagree = {}, []
     nontrivial = set()
     if not legends_agree or not legend.get("tokenTypes"):
         viol.append((0, dict(kind="oracle", what="initialize announces no (or a varying) semantic token legend", legend=legend)))
@@ -280,7 +282,8 @@ def run(ctx):
             obs = [0] + data
         else:
             obs = ["unexpected", data]
-        mod = [mnums[0]] + mnums[2:] if mnums[0] in (0, 1) else mnums
+        mod = ([0] + mnums[3:] if mnums[0] == 0 else [1]) if mnums[0] in (0, 1) else mnums
+        spec_flag = mnums[2] if mnums[0] == 0 and len(mnums) > 2 else None
         if len(mnums) > 1 and mnums[0] in (0, 1) and mnums[1] != 1:
             hist["model_wf_false"] += 1
         if obs != mod:
@@ -311,8 +314,19 @@ def run(ctx):
             nontrivial.add(text)
         # --- oracle, classification part (well-typed programs)
         if prog is not None:
+            if spec_flag == 0:
+                # the model reports diagnostics for this program: not a valid program, no classification claim
+                hist["generator_rejects"] = hist.get("generator_rejects", 0) + 1
+                continue
             exp, by_tok, infos, flat_idx = expected_stream(prog, toks)
             diffs = classify_diffs(dec, idxs, exp, toks, by_tok, infos, flat_idx)
+            # the Coq specification (SemTokProofs.semtok_full_statement, decided by the judge for this document)
+            # and this oracle must agree on which part fails
+            py_flag = 1 + (2 if any(p == "a" for _, _, p in diffs) else 0) + (1 if any(p == "b" for _, _, p in diffs) else 0)
+            spec_hist[spec_flag] = spec_hist.get(spec_flag, 0) + 1
+            if spec_flag != py_flag and obs == mod:
+                spec_disagree.append((n, spec_flag, py_flag))
+            diffs = [(cid, d) for cid, d, _ in diffs]
             new = [d for cid, d in diffs if cid is None or cid not in known_ids]
             for cid, d in diffs:
                 if cid is not None and cid in known_ids:
@@ -347,6 +361,11 @@ def run(ctx):
             ctx.violation(dict(kind="correspondence", property=PID, text=texts[n], server=srv[n], model=model[n],
                                mismatches=len(mism), kernel_failures=len(kfail),
                                what="Model/SemTok.v and the server's semanticTokens/full answer differ (model output: tag, wf flag, data)"), no_input=True)
+        elif spec_disagree:
+            n, cf, pf = spec_disagree[0]
+            ctx.violation(dict(kind="specification", property=PID, text=texts[n], coq_flag=cf, oracle_flag=pf, cases=len(spec_disagree),
+                               what="the Coq statement semtok_full_statement (decided by the judge: 1 holds, +2 part a fails, +1 part b fails) "
+                                    "and the python oracle disagree on this well-typed program"), no_input=True)
         elif not proved:
             ctx.violation(dict(kind="proof", property=PID, detail=getattr(ctx, "proof_failure", None)), no_input=True)
 
@@ -361,6 +380,8 @@ def run(ctx):
                 "their class + every identifier with the kind of its binding (splscope) and the declaration bit on the declaring occurrence. "
                 "non-trivial = distinct documents whose stream has >= 3 tokens",
         "input_histogram": hist, "token_types_seen": types_seen, "legend": legend,
+        "coq_full_statement_flags_on_valid_programs": {str(k): v for k, v in sorted(spec_hist.items())},
+        "coq_spec_vs_oracle_disagreements": len(spec_disagree),
         "traces_validated_against_impl": len(docs) - len(mism),
         "correspondence_mismatches": len(mism) + len(kfail), "kernel_judge_cases": len(pick),
         "oracle_failures": len(viol),
